@@ -87,7 +87,7 @@ def _arg_src(e):
         acc = e["name"]
         e = peel(e["e"])
     if e.get("k") == "Index":
-        return render(e["i"]).replace(" ", ""), acc
+        return render(e["i"], x=True).replace(" ", ""), acc
     return None, acc
 
 
@@ -135,9 +135,17 @@ def merged_fields(db, ctx):
     ok = any(is_call(c) and path_ends(callee(c), "concat_oov_nodes") and render(call_args(c)[3]) == "self.oov_pos_id" for c, _ in walk(jk.hir))
     ctx.ob("JoinKatakanaOovPlugin|passes-configured-pos", ok, "concat_oov_nodes(.., self.oov_pos_id): %s" % ok, fn=jk)
     jn = db.one("concat", "JoinNumericPlugin")
-    ok = any(ek in ("ok", "ret") and pol and cmp_atom(cond) and cmp_atom(cond)[0] == "Ne" and "pos_id()" in render(cond) and "numeric_pos_id" in render(cond)
-             for ifn, cond, pol, ek, ps in guarded_exits(jn.hir))
-    first = any(n.get("k") == "Let" and n["pat"].get("name") == "word_info" and "path[begin]" in render(n["init"]) for n, _ in walk(jn.hir))
+    from ..inline import nf
+
+    def _pos_guard(cond, pol):
+        # rejecting when the POS of path[begin] differs from the configured numeral POS: `a != b` exiting on true, or `a == b` exiting on false
+        c = cmp_atom(cond)
+        if not c:
+            return False
+        sides = {nf(c[1]), nf(c[2])}
+        return sides == {"path[begin].word_info().pos_id()", "self.numeric_pos_id"} and ((c[0] == "Ne" and pol) or (c[0] == "Eq" and not pol))
+    ok = any(ek in ("ok", "ret") and _pos_guard(cond, pol) for ifn, cond, pol, ek, ps in guarded_exits(jn.hir))
+    first = ok
     ctx.ob("JoinNumericPlugin::concat|numeral-pos-only", ok and first, "concat returns the path unchanged unless path[begin]'s POS is the numeral POS: %s/%s" % (ok, first), fn=jn)
     ctx.floor(10)
 
